@@ -5,10 +5,13 @@
  * transport: finished bytes (_state.done) are taken from its front in PRNG-chosen
  *            cuts (what encode_queue::trim / mpt_stream_flush do: crop + done -= k)
  *            and appended with mpt_qpush() to the ring of a decode_queue,
- * consumer:  mpt_queue_recv() / mpt_message_get() / mpt_queue_shift() / mpt_queue_peek().
+ * consumer:  mpt_queue_recv() / mpt_message_get() / mpt_queue_shift() / mpt_queue_peek();
+ * both rings are rotated now and then (mpt_queue_align) so that the open encoder
+ * block / the decoded data straddle the wrap.
  *
  * Monitors (after every operation):
- *   - sent log vs. received log: exactly once, in order, byte-equal,
+ *   - sent log vs. received log: exactly once, in order, byte-equal; the decoded part
+ *     of the message in progress is a prefix of the next message to come,
  *   - bounded progress: a complete frame is in the decode queue (counted by
  *     delimiters moved) and the reader got the space it asked for -> a bounded
  *     number of further receive attempts has to deliver it,
@@ -463,8 +466,8 @@ static void stall_check(const char *what)
 		        vf_hex(hx1, sizeof(hx1), C.msg[j].d, C.msg[j].n), ddesc(), framing[C.fr].name);
 	}
 }
-/* returns 1 when a message was delivered */
-static int do_recv(void)
+/* returns 1 when a message was delivered, -1 when the reader asked for space and got it */
+static int recv_once(void)
 {
 	int ret;
 	size_t before = C.dq.data.len;
@@ -476,6 +479,9 @@ static int do_recv(void)
 	vf_log("recv = %s | %s", ret < 0 ? errname(ret) : ret ? "1" : "0", ddesc());
 	if (ret == MPT_ERROR(MissingData) && !before) {
 		vf_count("recv:empty", 1);
+		/* Appendix A: the call after "1" consumes the message */
+		VF_CHECK(C.dq._state.data.msg < 0, "model:queue_recv:message-not-consumed", "recv on empty queue = MissingData, message of %zd bytes still current; %s",
+		         C.dq._state.data.msg, ddesc());
 		C.pending = 0; /* an empty queue keeps nothing to look at */
 		return 0;
 	}
@@ -489,6 +495,8 @@ static int do_recv(void)
 			inv_dec("mpt_queue_prepare");
 			C.gave_space++;
 			vf_count("dec:grown-on-MissingBuffer", 1);
+			stall_check("mpt_queue_recv = MissingBuffer");
+			return C.futile < 0 ? 0 : -1;
 		}
 		stall_check("mpt_queue_recv = MissingBuffer");
 		return 0;
@@ -625,6 +633,13 @@ static void do_rotate(vf_rng *r, int enc)
 		check_partial("after mpt_queue_align");
 		if (C.pending && C.dq._state.data.msg >= 0) check_message(C.received - 1, "after mpt_queue_align");
 	}
+}
+static int do_recv(void)
+{
+	int ret, tries = 0;
+	/* space the reader asked for is his: let him use it before the transport fills it */
+	while ((ret = recv_once()) < 0 && ++tries < 8) vf_count("recv:retry-with-space", 1);
+	return ret > 0;
 }
 static void do_shift(void)
 {
